@@ -7,3 +7,35 @@ package tabula
 // VerifValidateFormat exposes (*Extractor).validateFormat, the content-vs-extension
 // cross-check that ensureReader runs before any reader is opened.
 func (e *Extractor) VerifValidateFormat() error { return e.validateFormat() }
+
+// VerifExtractorState is a read-only snapshot of an Extractor's configuration
+// and reader life-cycle flags. It exists only under the "verif" build tag and
+// is used by the external verification harness.
+type VerifExtractorState struct {
+	Pages          []int
+	ExcludeHeaders bool
+	ExcludeFooters bool
+	ByColumn       bool
+	PreserveLayout bool
+	JoinParagraphs bool
+	HasErr         bool
+	OwnsReader     bool
+	ReaderOpened   bool
+	HasReader      bool
+}
+
+// VerifState returns a snapshot of e (the pages slice is copied).
+func (e *Extractor) VerifState() VerifExtractorState {
+	return VerifExtractorState{
+		Pages:          append([]int(nil), e.options.pages...),
+		ExcludeHeaders: e.options.excludeHeaders,
+		ExcludeFooters: e.options.excludeFooters,
+		ByColumn:       e.options.byColumn,
+		PreserveLayout: e.options.preserveLayout,
+		JoinParagraphs: e.options.joinParagraphs,
+		HasErr:         e.err != nil,
+		OwnsReader:     e.ownsReader,
+		ReaderOpened:   e.readerOpened,
+		HasReader:      e.reader != nil,
+	}
+}
